@@ -320,6 +320,10 @@ func CheckMain(o Options) int {
 	work := filepath.Join(VerifDir(), "work", fmt.Sprintf("%s-%d", p.ID, os.Getpid()))
 	os.RemoveAll(work)
 	os.MkdirAll(work, 0755)
+	// the children's temporary directories live under the run's scratch directory and are removed
+	// with it, also when a child crashed or was killed before it could clean up
+	ctmp := filepath.Join(work, "tmp")
+	os.MkdirAll(ctmp, 0755)
 	os.MkdirAll(filepath.Join(VerifDir(), "replays"), 0755)
 	os.MkdirAll(filepath.Join(VerifDir(), "evidence"), 0755)
 
@@ -359,7 +363,7 @@ func CheckMain(o Options) int {
 						"-from", strconv.Itoa(from), "-to", strconv.Itoa(j.to), "-out", out)
 					cmd.Stdout = lf
 					cmd.Stderr = lf
-					cmd.Env = append(os.Environ(), "GOTRACEBACK=all")
+					cmd.Env = append(os.Environ(), "GOTRACEBACK=all", "TMPDIR="+ctmp)
 					err := cmd.Run()
 					lf.Close()
 					rs, lastStart := readChildOut(out)
@@ -421,6 +425,7 @@ func CheckMain(o Options) int {
 	wg.Wait()
 
 	sort.Slice(results, func(i, j int) bool { return results[i].Case < results[j].Case })
+	os.RemoveAll(ctmp)
 	return finish(p, o, n, results, time.Since(start))
 }
 
